@@ -13,7 +13,7 @@ PROP = 'C09'
 LEVEL = 'model_checking'
 RULE = ('states = canonical form of the real Circuit (node list with kinds and pin lists, line list, io list); transitions = public edit operations '
         '(Node, Line implicit/explicit on free pins, Line.remove, Node.remove of disconnected nodes, io_nodes append/replace, get_or_add_fork, '
-        'eliminate_1to1_forks, substitute from a menu of 7 implementations (bench-parsed with fork ports; hand-built with port cells and fan-out/alias forks in a row, with and without 1:1 forks eliminated), copy, pickle round trip) over name pools; BFS to a depth bound from the '
+        'eliminate_1to1_forks, substitute from a menu of 7 implementations (bench-parsed with fork ports; hand-built with port cells and fan-out/alias forks in a row, with and without 1:1 forks eliminated), copy, pickle round trip; the circuit is serialised before every edit and every state reached by an edit is pickle-round-tripped) over name pools; BFS to a depth bound from the '
         'empty circuit and from seeded non-initial states; distinct_nontrivial = distinct canonical states')
 ASSUMPTIONS = ['well-formed use only: explicit pins on free positions (forks: first free output pin, input pin 0), nodes removed only when disconnected and not a port, '
                'eliminate_1to1_forks only when every single-output non-port fork has a driver, substitute only when pin counts fit',
